@@ -315,6 +315,7 @@ def run(ctx):
     launch_streams(res, ctx, rng)
     samplers(res, ctx, rng)
     stream.run_stream(res, 'c20', STREAM_CASES, rng, 'composite windows')
+    stream.run_files(res, 'c20', STREAM_CASES, rng, 'composite windows')
     recheck_retained(res)
     if ctx.shard == 0:
         seq = H.page_fault(0x1000, 0, 0, 2, [H.real_fault('purgeable', 1, 3, 2, 44), H.real_fault('internal', 2, 1, 4, 45)])
@@ -329,6 +330,7 @@ def run(ctx):
     res.require('launches_with_address_ties', 1)
     res.require('samplers_compared', 50)
     res.require('stream_windows_one_thread', 20)
+    res.require('file_windows_v3', 20)
     res.require('retained_traces_rechecked', 50)
     res.require('launch_stream_windows', 20)
     return res
